@@ -91,8 +91,11 @@ def replay_modify(fl, FA, vals=None, limit=4000, exclude_known=False, **kw):
                 for ov in e.output_variables:
                     ov.fuzzy.clear()
                 impl = fl.Minimum()
+                deg_obj = np.array(d, dtype=float)          # the rule's activation degree as an array object: modify must not write into it
                 try:
-                    c.modify(np.float64(d), impl)
+                    c.modify(deg_obj, impl)
+                    if not (np.array_equal(deg_obj, np.array(d, dtype=float), equal_nan=True)):
+                        return {"failed": True, "expected": f"the activation degree passed in stays {d}", "observed": float(deg_obj), "cases": n, "call": f"Consequent('{text}').modify(np.array({d}), Minimum()) changed the degree object of its caller"}
                 except Exception as ex:  # noqa
                     return {"failed": True, "expected": "no exception for a loaded consequent", "observed": f"{type(ex).__name__}: {ex}", "call": f"Consequent('{text}').modify({d})"}
                 exp = expected_contributions(fl, concl, d, enabled)
@@ -257,7 +260,8 @@ def replay_activation(fl, FA, method="General", vals=None, seed=0, budget=400, *
         # contribute" includes that a selected rule's contribution to `y` is not lost on the way
         two = cases % 2 == 1
         dis = fl.OutputVariable(name="d", enabled=False, minimum=0.0, maximum=1.0, aggregation=None, defuzzifier=fl.WeightedAverage(), terms=[fl.Constant("q", 1.0)])
-        rb = fl.RuleBlock(name="rb", conjunction=None, disjunction=None, implication=None, activation=act,
+        impl_obj = fl.AlgebraicProduct() if cases % 2 else None
+        rb = fl.RuleBlock(name="rb", conjunction=fl.Minimum(), disjunction=fl.Maximum(), implication=impl_obj, activation=act,
                           rules=[fl.Rule.create(f"if x{i} is up then " + ("d is q and " if two else "") + f"y is c{i}") for i in range(n)])
         e = fl.Engine(name="w", input_variables=ins, output_variables=[out, dis] if two else [out], rule_blocks=[rb], load=False)
         for i, r in enumerate(rb.rules):
@@ -282,7 +286,8 @@ def replay_activation(fl, FA, method="General", vals=None, seed=0, budget=400, *
         exp_deg = [float(dfin[i]) if loaded[i] else 0.0 for i in range(n)]
         got_deg = [float(r.activation_degree) for r in rb.rules]
         ok = (len(got_terms) == len(exp_terms) and all(g[0] == x[0] and FA.same(g[1], x[1]) for g, x in zip(got_terms, exp_terms))
-              and got_flags == exp_flags and all(FA.same(a, b) for a, b in zip(got_deg, exp_deg)) and not dis.fuzzy.terms)
+              and got_flags == exp_flags and all(FA.same(a, b) for a, b in zip(got_deg, exp_deg)) and not dis.fuzzy.terms
+              and all(a.implication is impl_obj for a in out.fuzzy.terms))          # the activated terms carry the block's implication operator (not another operator of the block)
         exp_terms = [(t, None if x != x else x) for t, x in exp_terms]; exp_deg = [None if x != x else x for x in exp_deg]        # JSON-friendly NaN
         got_deg = [None if x != x else x for x in got_deg]
         if not ok:
@@ -429,9 +434,15 @@ def replay_antecedent(fl, FA, vals=None, depth=3, seed=0, budget=600, **kw):
         # "the connectives are computed with the rule block's conjunction and disjunction operators": the same degree when the rule is activated through a rule
         # block by any activation method (Proportional normalises afterwards and is left to C08)
         if it % 4 == 0 and exp == exp:
-            for mk in (fl.General, lambda: fl.First(5, 0.0), lambda: fl.Last(5, 0.0), lambda: fl.Highest(5), lambda: fl.Lowest(5), lambda: fl.Threshold(">=", 0.0)):
+            if not any(o.name == "W" for o in e.output_variables):          # an output variable no antecedent reads, for the rule that takes the quota
+                e.output_variables.append(fl.OutputVariable(name="W", minimum=0.0, maximum=1.0, defuzzifier=fl.WeightedAverage(), terms=[fl.Constant("k", 1.0)]))
+            always = fl.Rule.create(f"if {names[0]} is any then W is k", e)          # fires with degree 1 whenever its variable is enabled
+            for mk, before in ((fl.General, False), (lambda: fl.First(5, 0.0), False), (lambda: fl.Last(5, 0.0), False), (lambda: fl.Highest(5), False), (lambda: fl.Lowest(5), False),
+                               (lambda: fl.Threshold(">=", 0.0), False),
+                               # methods that do NOT select the rule still compute its degree: the quota taken by an earlier rule, a threshold nothing reaches
+                               (lambda: fl.First(1, 0.0), True), (lambda: fl.Threshold(">", 2.5), False), (lambda: fl.Highest(1), True)):
                 act = mk()
-                rb = fl.RuleBlock(name="rb", conjunction=cj, disjunction=dj, implication=fl.Minimum(), activation=act, rules=[r])
+                rb = fl.RuleBlock(name="rb", conjunction=cj, disjunction=dj, implication=fl.Minimum(), activation=act, rules=([always] if before else []) + [r])
                 try:
                     rb.activate()
                     via = np.float64(r.activation_degree)
